@@ -77,72 +77,123 @@ func runC20(r *mc.Run) {
 		}
 	}
 	bound := 3
+	// shapes of the successful response: the first success is returned whatever it looks like
+	type shape struct {
+		name   string
+		header map[string][]string
+		body   []byte
+	}
+	shapes := []shape{
+		{"header+body", map[string][]string{"X-Good": {"1", "2"}}, []byte("good body")},
+		{"nil-header+body", nil, []byte("good body")},
+		{"header+nil-body", map[string][]string{"X-Good": {"1", "2"}}, nil},
+		{"nil-header+nil-body", nil, nil},
+		{"empty-header+empty-body", map[string][]string{}, []byte{}},
+		{"header-with-empty-value+one-byte-body", map[string][]string{"": nil}, []byte{0}},
+	}
 	// The clock is global to the process: executions are run one at a time.
-	for _, gr := range grids {
-		for _, lat := range []time.Duration{0, time.Second} {
-			// k = -1 is "fail forever"; it tells how many attempts the timeout allows
-			maxK := 0
-			for k := -1; k <= maxK; k++ {
-				k := k
-				name := fmt.Sprintf("retry/timeout=%v,maxdelay=%v,default=%v,latency=%v,k=%d", gr.timeout, gr.maxDelay, gr.def, lat, k)
-				attemptsSeen := 0
-				st := exploreSerial(r, name, bound, func(c *mc.Ctx) {
-					vsched.Reset()
-					vsched.SetHorizon(gr.timeout + gr.maxDelay + 10*time.Minute)
-					vsched.Chooser = func(label string, n int) int { return c.Choose(label, n) }
-					defer func() { vsched.Chooser = nil }()
-					inner := &c20inner{failFirst: k, latency: lat,
-						header: map[string][]string{"X-Good": {"1", "2"}}, body: []byte("good body"),
-						failHdr: map[string][]string{"X-Stale": {"stale"}}, failBody: []byte("stale body")}
-					var getter *trust.RetryHTTPSGetter
-					if gr.def {
-						dg, ok := trust.DefaultHTTPSGetter().(*trust.RetryHTTPSGetter)
-						if !ok {
-							r.HarnessError("DefaultHTTPSGetter is no longer a *RetryHTTPSGetter; C20's default-configuration case needs updating")
+	for gi, gr := range grids {
+		for si, sh := range shapes {
+			if si > 0 && !(gr.def || gi%7 == 3) {
+				continue // the other response shapes on the default configuration and on every 7th grid point
+			}
+			for _, lat := range []time.Duration{0, time.Second} {
+				// k = -1 is "fail forever"; it tells how many attempts the timeout allows
+				maxK := 0
+				for k := -1; k <= maxK; k++ {
+					k := k
+					if si > 0 && (k < 0 || k > 2) && maxK != 0 {
+						continue
+					}
+					name := fmt.Sprintf("retry/timeout=%v,maxdelay=%v,default=%v,latency=%v,k=%d", gr.timeout, gr.maxDelay, gr.def, lat, k)
+					if si > 0 {
+						name += ",response=" + sh.name
+					}
+					attemptsSeen := 0
+					st := exploreSerial(r, name, bound, func(c *mc.Ctx) {
+						vsched.Reset()
+						vsched.SetHorizon(gr.timeout + gr.maxDelay + 10*time.Minute)
+						vsched.Chooser = func(label string, n int) int { return c.Choose(label, n) }
+						defer func() { vsched.Chooser = nil }()
+						wantHdr, wantBody = sh.header, sh.body
+						inner := &c20inner{failFirst: k, latency: lat,
+							header: cloneHdr(sh.header), body: cloneBytes(sh.body),
+							failHdr: map[string][]string{"X-Stale": {"stale"}}, failBody: []byte("stale body")}
+						var getter *trust.RetryHTTPSGetter
+						if gr.def {
+							dg, ok := trust.DefaultHTTPSGetter().(*trust.RetryHTTPSGetter)
+							if !ok {
+								r.HarnessError("DefaultHTTPSGetter is no longer a *RetryHTTPSGetter; C20's default-configuration case needs updating")
+								return
+							}
+							if dg.Timeout != 2*time.Minute || dg.MaxRetryDelay != 30*time.Second {
+								r.Violate("default-config", name, fmt.Sprintf("default getter is configured with timeout %v / max delay %v, want 2m / 30s", dg.Timeout, dg.MaxRetryDelay), nil)
+							}
+							dg.Getter = inner
+							getter = dg
+						} else {
+							getter = &trust.RetryHTTPSGetter{Timeout: gr.timeout, MaxRetryDelay: gr.maxDelay, Getter: inner}
+						}
+						var hdr map[string][]string
+						var body []byte
+						var err error
+						var pan any
+						func() {
+							defer func() { pan = recover() }()
+							hdr, body, err = getter.Get("https://example.test/x")
+						}()
+						id := name + "/" + c.ID()
+						if inner.calls > attemptsSeen {
+							attemptsSeen = inner.calls
+						}
+						if !r.Want(id) {
 							return
 						}
-						if dg.Timeout != 2*time.Minute || dg.MaxRetryDelay != 30*time.Second {
-							r.Violate("default-config", name, fmt.Sprintf("default getter is configured with timeout %v / max delay %v, want 2m / 30s", dg.Timeout, dg.MaxRetryDelay), nil)
+						out := c20Judge(r, id, gr.timeout, gr.maxDelay, lat, k, inner, hdr, body, err, pan)
+						r.Eval(id, k != 0, out)
+					})
+					_ = st
+					if k == -1 && si > 0 {
+						maxK = 2
+					} else if k == -1 {
+						maxK = attemptsSeen // "k failures then success" for every k the timeout allows (and one beyond)
+						if maxK < 3 {
+							maxK = 3
 						}
-						dg.Getter = inner
-						getter = dg
-					} else {
-						getter = &trust.RetryHTTPSGetter{Timeout: gr.timeout, MaxRetryDelay: gr.maxDelay, Getter: inner}
-					}
-					var hdr map[string][]string
-					var body []byte
-					var err error
-					var pan any
-					func() {
-						defer func() { pan = recover() }()
-						hdr, body, err = getter.Get("https://example.test/x")
-					}()
-					id := name + "/" + c.ID()
-					if inner.calls > attemptsSeen {
-						attemptsSeen = inner.calls
-					}
-					if !r.Want(id) {
-						return
-					}
-					out := c20Judge(r, id, gr.timeout, gr.maxDelay, lat, k, inner, hdr, body, err, pan)
-					r.Eval(id, k != 0, out)
-				})
-				_ = st
-				if k == -1 {
-					maxK = attemptsSeen // "k failures then success" for every k the timeout allows (and one beyond)
-					if maxK < 3 {
-						maxK = 3
-					}
-					if maxK > 150 {
-						maxK = 150
-						if !(gr.maxDelay == 0 && lat == 0) {
-							r.Cap(fmt.Sprintf("%s: more than 150 attempts fit in the timeout; k explored up to 150", name))
+						if maxK > 150 {
+							maxK = 150
+							if !(gr.maxDelay == 0 && lat == 0) {
+								r.Cap(fmt.Sprintf("%s: more than 150 attempts fit in the timeout; k explored up to 150", name))
+							}
 						}
 					}
 				}
 			}
 		}
 	}
+}
+
+var (
+	wantHdr  map[string][]string
+	wantBody []byte
+)
+
+func cloneHdr(h map[string][]string) map[string][]string {
+	if h == nil {
+		return nil
+	}
+	out := map[string][]string{}
+	for k, v := range h {
+		out[k] = append([]string(nil), v...)
+	}
+	return out
+}
+
+func cloneBytes(b []byte) []byte {
+	if b == nil {
+		return nil
+	}
+	return append([]byte{}, b...)
 }
 
 // exploreSerial is Engine A without parallelism (the virtual clock is process-global).
@@ -206,13 +257,13 @@ func c20Judge(r *mc.Run, id string, timeout, maxDelay, lat time.Duration, k int,
 		case in.calls != wantCalls:
 			r.Violate(sigBase+"calls-after-success", id, fmt.Sprintf("wrapped getter called %d times, want exactly %d (first success ends the loop)", in.calls, wantCalls), detail)
 			out = "extra-calls"
-		case reflect.ValueOf(hdr).Pointer() != reflect.ValueOf(in.header).Pointer() && !reflect.DeepEqual(hdr, map[string][]string{"X-Good": {"1", "2"}}):
+		case !reflect.DeepEqual(hdr, wantHdr):
 			r.Violate(sigBase+"wrong-header", id, fmt.Sprintf("returned header is not that of the successful attempt: %v", hdr), detail)
 			out = "wrong-header"
-		case !bytes.Equal(body, []byte("good body")):
+		case !bytes.Equal(body, wantBody) || (body == nil) != (wantBody == nil):
 			r.Violate(sigBase+"wrong-body", id, fmt.Sprintf("returned body is not that of the successful attempt: %q", body), detail)
 			out = "wrong-body"
-		case !reflect.DeepEqual(in.header, map[string][]string{"X-Good": {"1", "2"}}) || !bytes.Equal(in.body, []byte("good body")):
+		case !reflect.DeepEqual(in.header, wantHdr) || !bytes.Equal(in.body, wantBody):
 			r.Violate(sigBase+"response-modified", id, "the successful response was modified in place", detail)
 			out = "modified"
 		}
